@@ -65,8 +65,9 @@ Matches(r) == /\ StateMatches(r.s, E.obs) /\ ReMatches([r.re EXCEPT !.evs = IF E
               /\ (E.synclost => Bag(r.re.evs) = Bag(E.re.evs))
 \* (errbacks - and the calls re-issued from them - run either in the step itself, while the transport is still up, or in the
 \* loss that a synchronous close appends to it, never in both: whichever order explains the log)
-Accept(r0) == LET rA == WithSyncLost(WithRetries(r0, 1))
-                  rB == WithRetries(WithSyncLost(r0), 1)
+Accept(r00) == LET r0 == IF E.lraise THEN LeaveRaises(r00) ELSE r00
+                  rA == IF E.lraise THEN LeaveRaises(WithSyncLost(WithRetries(r0, 1))) ELSE WithSyncLost(WithRetries(r0, 1))
+                  rB == IF E.lraise THEN LeaveRaises(WithRetries(WithSyncLost(r0), 1)) ELSE WithRetries(WithSyncLost(r0), 1)
                   r == IF Matches(rA) THEN rA ELSE rB IN
              /\ s' = r.s /\ re' = r.re
              /\ Matches(r)
